@@ -1162,6 +1162,19 @@ struct H {
             size_t mark = r.trace.size();
             r.step();
             Str     last = r.trace.substr(mark);
+            {   // distribution of operations (evidence): the operation name is what follows the target path
+                size_t c = last.find(':');
+                Str    opn = (c == Str::npos) ? last : last.substr(c + 1);
+                size_t e2 = opn.find_first_of(";([");
+                if (e2 == 0 && !opn.empty() && opn[0] == '[') {
+                    opn = (opn.find("](created)") != Str::npos || opn.find("](touched)") != Str::npos) ? "[]-get-or-create" : "[]-then-assign";
+                } else if (e2 != Str::npos) {
+                    opn = opn.substr(0, e2);
+                }
+                if (!opn.empty()) {
+                    ctx.label("op:" + opn);
+                }
+            }
             Checker ck{md, ctx, last.c_str()};
             try {
                 for (int i = 0; i < kPool; ++i) {
